@@ -243,25 +243,31 @@ def hFlatten (x : Nat) (dim : Int) : HM α Nat := do
   let H ← getHeap; hOp1 x (vFlatten (H.val x) dim) (fun _ => .reshapeX x)
 def hBroadcast (x : Nat) (shape : List Int) : HM α Nat := do
   let H ← getHeap; hOp1 x (vBroadcast (H.val x) shape) (fun y => .bcastX x y)
+/-- the backward rule each reduction attaches -/
+def alongRule (r : Reducer) (x y dim : Nat) : Rule α :=
+  match r with
+  | .sum => .sumAlongX x dim
+  | .max | .min => .extAlongX x y dim
+  | .avg | .mean => .avgAlongX x dim
+  | .var => .varAlongX x dim
+  | .std => .stdAlongX x y dim
+
 def hAlong (r : Reducer) (x : Nat) (dim : Int) : HM α Nat := do
   let H ← getHeap
-  hOp1 x (vAlong r (H.val x) dim) (fun y =>
-    match r with
-    | .sum => .sumAlongX x dim.toNat
-    | .max | .min => .extAlongX x y dim.toNat
-    | .avg | .mean => .avgAlongX x dim.toNat
-    | .var => .varAlongX x dim.toNat
-    | .std => .stdAlongX x y dim.toNat)
+  hOp1 x (vAlong r (H.val x) dim) (fun y => alongRule r x y dim.toNat)
 def hScale (x : Nat) (a : α) : HM α Nat := do
   let H ← getHeap; hOp1 x (.ok (vScale (H.val x) a)) (fun _ => .scaleX a)
 def hPow (x : Nat) (a : α) : HM α Nat := do
   let H ← getHeap; hOp1 x (.ok (vPow (H.val x) a)) (fun _ => .powX x a)
+/-- the backward rule each unary function attaches -/
+def unaryRule (f : Unary) (x y : Nat) : Rule α :=
+  match f with
+  | .exp => .expX y | .log => .logX x | .sin => .sinX x | .cos => .cosX x | .tan => .tanX x
+  | .sinh => .sinhX x | .cosh => .coshX x | .tanh => .tanhX x
+
 def hUnary (f : Unary) (x : Nat) : HM α Nat := do
   let H ← getHeap
-  hOp1 x (.ok (vUnary f (H.val x))) (fun y =>
-    match f with
-    | .exp => .expX y | .log => .logX x | .sin => .sinX x | .cos => .cosX x | .tan => .tanX x
-    | .sinh => .sinhX x | .cosh => .coshX x | .tanh => .tanhX x)
+  hOp1 x (.ok (vUnary f (H.val x))) (fun y => unaryRule f x y)
 
 def hPatch (x : Nat) (index : List IRange) (p : Nat) : HM α Nat := do
   let H ← getHeap
